@@ -428,7 +428,7 @@ func doRemove() (ok bool, p interface{}) {
 func TestGroupChainHistories(t *testing.T) {
 	knownA := stats.IsKnown(findingA)
 	knownB := stats.IsKnown(findingB)
-	stats.Check(t, 22, 300, func(t *rapid.T) {
+	stats.Check(t, 14, 300, func(t *rapid.T) {
 		n, m := startNode(t.Fatalf)
 		failedBoot := false
 		defer func() {
@@ -877,7 +877,7 @@ func runPair(x *mgroup, yops []cop) (parked bool, xr addRes, yres []bool, yPanic
 }
 
 func TestConcurrentPairs(t *testing.T) {
-	stats.Check(t, 12, 150, func(t *rapid.T) {
+	stats.Check(t, 8, 150, func(t *rapid.T) {
 		n, m := startNode(t.Fatalf)
 		failedBoot := false
 		defer func() {
